@@ -41,6 +41,13 @@ def directed_histories(rng, n, labels, quad=False, constrained=True, length=7, k
         # half of the histories contain a sandwich  conversion ; <one edit or renumbering> ; the same conversion
         # (anything a conversion remembers must be forgotten by every kind of edit)
         sandwich_at = rng.randint(2, 4) if (constrained and rng.random() < 0.5) else -1
+        if constrained and len(labels) >= 4 and rng.random() < 0.25:
+            # motif: a cubic term, then a variable that comes and goes (the LAST label of the mapping is stale), then a reduction
+            s0 = rng.choice([1, 2])
+            ls_ = list(labels)
+            rng.shuffle(ls_)
+            ops += [["setitem", s0, ls_[:3], rng.choice([1, -1])], ["setitem", s0, [ls_[3]], 1], ["setitem", s0, [ls_[3]], 0],
+                    ["toenum", s0, True]]
         for step_ in range(length):
             f = rng.choice(fams)
             s_ = rng.choice([1, 2])
